@@ -8,6 +8,8 @@ import sys
 
 
 def main():
+    import os
+    os.environ['VT_REPLAY'] = '1'
     rec = json.load(open(sys.argv[1]))
     mod, fn = rec['factory'].split(':')
     try:
@@ -17,8 +19,13 @@ def main():
         import traceback
         traceback.print_exc()
         return 2
+    from vt.harness import Hang, NATIVE_DEADLINE, _deadline
     try:
-        ok, tag, dg = body(tuple(rec['args']))
+        with _deadline(getattr(body, 'native_deadline', NATIVE_DEADLINE)):
+            ok, tag, dg = body(tuple(rec['args']))
+    except Hang:
+        ok, tag, dg = False, 'hang', f'no answer within {getattr(body, "native_deadline", NATIVE_DEADLINE):.0f} s'
+        body.explain = None
     except Exception as e:  # noqa: BLE001
         ok, tag, dg = False, 'native-exception', repr(e)
     explain = getattr(body, 'explain', None)
